@@ -30,12 +30,15 @@ Theorem C04_memory_unbounded_refuted : exists L d x,
 Proof. exact memory_unbounded_refuted. Qed.
 Print Assumptions C04_memory_unbounded_refuted.
 
-(* the code is stricter than the specification for tables (declared minimum instead of the current length):
-   allowed by the "only if" wording *)
-Theorem C04_stricter_than_spec_example : exists L d x,
-  link_wf L d x /\ extern_match (spec_of_xobj x) (spec_of_idesc d) = true /\ code_accept L d x <> 0.
-Proof. exact stricter_than_spec_example. Qed.
-Print Assumptions C04_stricter_than_spec_example.
+(* ... and IF it matches ("instantiation succeeds exactly when every import matches"): whatever the specification's
+   subtyping accepts, the import check accepts. Tables are judged against their CURRENT size, as memories are (the
+   external type of a table instance carries its current size as the minimum; resolveImports does so since 3fc425f). The
+   check's witness w-table-grown ties this to the code: a table grown by table.grow, then imported with the larger minimum
+   (accepted) and with one more (rejected); a regression is reported with sig rejects-spec-accepts / table-current-size *)
+Theorem C04_import_accept_complete : forall L d x,
+  link_wf L d x -> extern_match (spec_of_xobj x) (spec_of_idesc d) = true -> code_accept L d x = 0.
+Proof. exact import_accept_complete. Qed.
+Print Assumptions C04_import_accept_complete.
 
 (* one shared object: for every value domain, host, listener set, after ANY history of export calls on any
    instances, two instances whose records name the same store address still do, and in the store reached a store
